@@ -72,6 +72,8 @@ CONSTANTS Claims,            \* subset of {"c1","c2","c3"} (static attributes in
           RepairSlack,       \* 0 = code; 1 = one millisecond before the toleration elapsed
           RepairTolBy,       \* "policy" = code (toleration of the policy matching type and status); "type" = of the first
                              \* policy with the same condition type
+          RepairAnnotated,   \* "check" = code (the 20 % breaker is consulted on every pass); "shortcut" = a NodeClaim that already
+                             \* carries the termination-timestamp annotation is deleted without consulting it
           RepairExtra,       \* 0 = code; 1 = one more unhealthy node tolerated than 20 % rounded up
           RepairScope,       \* "pool" = code; "cluster" = pool claims judged against the whole cluster
           RepairOnListError, \* "abort" = code; "continue" = failed node List read as empty
@@ -273,7 +275,8 @@ Repair(c, f, k) ==
         bad == Cardinality({x \in seen : Unhealthy(all[x], Policies) /\ (RepairTerminating = "count" \/ ~all[x].deleting)})
         thr == ((20 * Cardinality(seen) + 99) \div 100) + RepairExtra
         s1 == f # "claimList" /\ found /\ due
-        s2 == s1 /\ (f # "nodeList" \/ listCont) /\ bad <= thr
+        short == RepairAnnotated = "shortcut" /\ cl.terminationAt >= 0
+        s2 == s1 /\ (short \/ ((f # "nodeList" \/ listCont) /\ bad <= thr))
         needPatch == ~(cl.terminationAt >= 0 /\ Ms(cl.terminationAt) < now) /\ cl.terminationAt # Stamp
         annotate == s2 /\ needPatch /\ f # "annotate"
         s3 == s2 /\ ~(needPatch /\ f = "annotate")
@@ -335,6 +338,11 @@ BgFlip(sc, d) ==
 UserDelete(c) ==
     /\ claim[c].exists /\ ~claim[c].deleting /\ EnvStep /\ MarkDeleted({c})
     /\ UNCHANGED <<now, node, listed, bg>> /\ Hist([a |-> "UserDelete", c |-> c])
+\* someone else (a user, another controller) stamps the termination-timestamp annotation on the claim
+EnvAnnotate(c) ==
+    /\ claim[c].exists /\ claim[c].terminationAt < 0 /\ EnvStep
+    /\ claim' = [claim EXCEPT ![c].terminationAt = Stamp]
+    /\ UNCHANGED <<now, node, listed, bg>> /\ Hist([a |-> "Annotate", c |-> c])
 \* launch / registration progress of an unregistered claim (lifecycle controller + kubelet, abstracted)
 EnvLaunched(c) ==
     /\ claim[c].exists /\ ~claim[c].deleting /\ claim[c].launched # "True" /\ EnvStep
@@ -368,6 +376,7 @@ DoInstanceVanishes == Bound /\ \E c \in Claims : InstanceVanishes(c)
 DoNodeGone == Bound /\ \E c \in Claims : NodeGone(c)
 DoNodeTerminating == Bound /\ \E c \in Claims : NodeTerminating(c)
 DoUserDelete == Bound /\ \E c \in Claims : UserDelete(c)
+DoAnnotate == Bound /\ \E c \in Claims : EnvAnnotate(c)
 DoLaunched == Bound /\ \E c \in Claims : EnvLaunched(c)
 DoRegistered == Bound /\ \E c \in Claims, st \in ReadyVals : EnvRegistered(c, st)
 DoJoin == Bound /\ \E c \in Claims, st \in ReadyVals : EnvJoin(c, st)
@@ -375,7 +384,7 @@ DoNodeReady == Bound /\ \E c \in Claims, s \in ReadyVals : NodeReady(c, s)
 DoDiskBad == Bound /\ \E c \in Claims, s \in {"True", "False"} : DiskBad(c, s)
 DoBgFlip == Bound /\ \E sc \in {"p", "o"}, d \in {-1, 0, 1} : BgFlip(sc, d)
 DoRestart == Bound /\ Restart
-Next == DoExpire \/ DoGc \/ DoLive \/ DoRepair \/ DoTick \/ DoInstanceVanishes \/ DoNodeGone \/ DoNodeTerminating \/ DoUserDelete
+Next == DoExpire \/ DoGc \/ DoLive \/ DoRepair \/ DoTick \/ DoInstanceVanishes \/ DoNodeGone \/ DoNodeTerminating \/ DoUserDelete \/ DoAnnotate
         \/ DoLaunched \/ DoRegistered \/ DoJoin \/ DoNodeReady \/ DoDiskBad \/ DoBgFlip \/ DoRestart
 Spec == Init /\ [][Next]_vars
 
